@@ -1,5 +1,6 @@
 import PlatypusModel.Model.Grid
 import PlatypusModel.Props.C03
+import PlatypusModel.Props.C04
 import PlatypusModel.Lemmas.Grid
 import Mathlib.Data.List.Induction
 import Mathlib.Data.List.Perm.Basic
@@ -466,5 +467,23 @@ theorem aga_overflow_drops_one (cfg : GridCfg σ β) (h : GoodCfg cfg) (g : Grid
       have hps : p = s := List.inj_on_of_nodup_map hfacts.2 hp hsmem hid
       apply hbr
       rw [hps]; simp
+
+/-! ### population sizes of the generational algorithms (survival = stable sort + take) -/
+
+/-- NSGA-II / ES / SPEA2-style survival: truncating the merged parents-plus-offspring (at least `N` of
+them) to `N` yields exactly `N` -/
+theorem generational_survivors_size {τ : Type} (le : τ → τ → Bool) (merged : List τ) (N : Nat)
+    (h : N ≤ merged.length) : (truncateBy le merged N).length = N := by
+  rw [truncate_length]; exact Nat.min_eq_left h
+
+/-- the GA keeps `min N (offspring + 1)`: never more than `N`, and exactly `N` unless it was given
+fewer offspring than parents -/
+theorem ga_population_size {τ : Type} (le : τ → τ → Bool) (offspring : List τ) (fittest : τ) (N : Nat) :
+    (truncateBy le (offspring ++ [fittest]) N).length ≤ N ∧
+    (N ≤ offspring.length + 1 → (truncateBy le (offspring ++ [fittest]) N).length = N) := by
+  rw [truncate_length]
+  constructor
+  · exact Nat.min_le_left _ _
+  · intro h; simp; omega
 
 end Platypus
